@@ -91,6 +91,12 @@ pub fn gen(seed: u64, tier: Tier) -> ScenarioSpec {
     if rng.chance(1, 10) {
         spec.knobs.insert("prelude".into(), 2);
     }
+    if rng.chance(1, 2) {
+        spec.knobs.insert("reread_prefix".into(), *rng.pick(&[1i64, 7, 16, 64, 4099]));
+    }
+    if rng.chance(1, 4) {
+        spec.knobs.insert("reread_suffix".into(), *rng.pick(&[1i64, 20, 3000]));
+    }
     spec
 }
 
@@ -143,7 +149,13 @@ pub fn run(spec: &ScenarioSpec, ctx: &mut Ctx) -> Result<(), Violation> {
         ));
     }
     ctx.check();
-    let g2 = expect_ok(P, "slippi::read(written)", read_slp_noopts(&wbytes, &StreamSpec::default(), &[]).res)?;
+    // the written file is read back as a member of a larger stream as often as on its own
+    let mut back = StreamSpec::default();
+    back.prefix = spec.knob("reread_prefix").max(0) as u32;
+    back.suffix = spec.knob("reread_suffix").max(0) as u32;
+    back.pseed = spec.seed;
+    ctx.probe_if(back.prefix > 0, "written file re-read from a non-zero stream offset");
+    let g2 = expect_ok(P, "slippi::read(written)", read_slp_noopts(&wbytes, &back, &[]).res)?;
     let n = cmp_games(&g1, &g2, CmpMask { frames: true, hash: false, quirks: false, start_bytes: true })
         .map_err(|(s, msg)| Violation::new(P, "not-fixed-point", format!("reread {}", s), msg))?;
     ctx.checks(n);
